@@ -34,6 +34,8 @@ def surv_part(v, thorough):
     tlc_require_ok(r, "Survey")
     v.add_tlc("proto/Survey.tla:mc", r)
     replay_sim(v, "surveyor", False, "proto/Survey.tla", "Survey_sim.cfg", 20000 if thorough else 2500, 35, auto=True)
+    # surveys piling up behind respondents that do not read (per-pipe queue of 8 full: dropped for that respondent, nothing leaks)
+    replay_sim(v, "surveyor", False, "proto/Survey.tla", "Survey_sendq.cfg", 2000 if thorough else 300, 45, auto=True)
 
 
 def run(v, tier, rng):
